@@ -247,15 +247,18 @@ class Server(utils.EventEmitter):
         self.attributes.append(attribute)
 
     def add_service(self, service: Service) -> None:
+        # Included services that are not registered yet are registered first, so that
+        # their attributes do not end up inside this service's handle range
+        for included_service in service.included_services:
+            if included_service not in self.services:
+                self.add_service(included_service)
+                # TODO: Handle circular service reference
+
         # Add the service attribute to the DB
         self.add_attribute(service)
 
         # Add all included service
         for included_service in service.included_services:
-            # Not registered yet, register the included service first.
-            if included_service not in self.services:
-                self.add_service(included_service)
-                # TODO: Handle circular service reference
             include_declaration = IncludedServiceDeclaration(included_service)
             self.add_attribute(include_declaration)
 
@@ -306,7 +309,9 @@ class Server(utils.EventEmitter):
 
     def add_services(self, services: Iterable[Service]) -> None:
         for service in services:
-            self.add_service(service)
+            # (a service may already have been registered as an included service)
+            if service not in self.services:
+                self.add_service(service)
 
     def make_descriptor_value(
         self, characteristic: Characteristic
